@@ -80,7 +80,7 @@ fn quantize_parameters_in_range<const N: usize>() {
 }
 
 /// One coefficient (the order-1 predictor).
-//@ unit props=C07,C02 tier=quick kind=bounded timeout=1500 funcs="lpc::find_shift; lpc::quantize_parameter; lpc::quantize_parameters" bound="1 coefficient (every finite f64), precision 1..=15 complete"
+//@ unit props=C07 tier=quick kind=bounded timeout=1500 funcs="lpc::find_shift; lpc::quantize_parameter; lpc::quantize_parameters" bound="1 coefficient (every finite f64), precision 1..=15 complete"
 #[kani::proof]
 #[kani::unwind(34)]
 #[kani::stub(std::fmt::format, stub_format)]
@@ -95,4 +95,25 @@ fn c07_quantize_parameters_n1() {
 #[kani::stub(std::fmt::format, stub_format)]
 fn c07_quantize_parameters_n2() {
     quantize_parameters_in_range::<2>();
+}
+
+
+/// C02 "non-negative shift": `find_shift` - the only producer of the LPC shift the encoder writes
+/// into its 5-bit two's-complement field - returns a value in 0..=15 for every finite coefficient
+/// and every accepted precision (a value of 16..=31 would be read back as negative).
+//@ unit props=C02,C07,C01 tier=quick kind=bounded timeout=900 funcs="lpc::find_shift" bound="1 and 2 coefficients (every finite f64), precision 1..=15"
+#[kani::proof]
+#[kani::unwind(6)]
+#[kani::stub(std::fmt::format, stub_format)]
+fn c02_find_shift_range() {
+    let c: [f64; 2] = kani::any();
+    kani::assume(c[0].is_finite() && c[1].is_finite());
+    let precision: usize = kani::any();
+    kani::assume(1 <= precision && precision <= 15);
+    let s1 = find_shift(&c[0..1], precision);
+    assert!(0 <= s1 && s1 <= 15);
+    let s2 = find_shift(&c, precision);
+    assert!(0 <= s2 && s2 <= 15);
+    kani::cover!(s1 == 15);
+    kani::cover!(s2 == 0);
 }
